@@ -107,7 +107,15 @@ def do_run(argv: List[str]) -> int:
                 sigs = [ln.strip()[len("signature: "):] for ln in c.stdout.splitlines() if ln.strip().startswith("signature:")]
                 whats = [ln.strip()[len("what: "):][:300] for ln in c.stdout.splitlines() if ln.strip().startswith("what:")]
                 status = "CAUGHT" if c.returncode == 1 and viol else ("MISSED" if c.returncode == 0 else f"HARNESS({c.returncode})")
-                results[tier] = {"status": status, "signatures": sigs[:4], "what": whats[:2]}
+                raw_hits = runs = None
+                try:
+                    with open(os.path.join(VERIF, "evidence", f"{prop}.json")) as fd:
+                        ev = json.load(fd)
+                    raw_hits = ev["coverage"]["counters"].get("violations_raw", 0)
+                    runs = ev["coverage"]["evaluations"]
+                except Exception:  # noqa: BLE001
+                    pass
+                results[tier] = {"status": status, "signatures": sigs[:4], "what": whats[:2], "violating_observations": raw_hits, "of_runs": runs, "seed": os.environ.get("VERIF_SEED", "0")}
                 # keep the (minimised) replay of the first violation next to the patch
                 for ln in viol[:1]:
                     rp = ln.split("replay=")[-1].strip()
@@ -147,7 +155,7 @@ def do_run(argv: List[str]) -> int:
             meta["ran"] = [f"scratch copy of /repo at HEAD + patch.diff; pytest ({tail}); demo.py without/with change (exit {demo_clean}/{demo_patched}); /verif/check {prop} --tier " + "/".join(results)]
             with open(os.path.join(sdir, "meta.json"), "w") as fd:
                 json.dump(meta, fd, indent=1)
-            print(f"{sid} [{prop}] confirmed={confirmed} (suite_ok={suite_ok} demo {demo_clean}->{demo_patched}) " + " ".join(f"{k}:{v['status']}" for k, v in results.items()) + f" {[s for r in results.values() for s in r['signatures']][:2]} ({time.monotonic() - t0:.0f}s)", flush=True)
+            print(f"{sid} [{prop}] confirmed={confirmed} (suite_ok={suite_ok} demo {demo_clean}->{demo_patched}) " + " ".join(f"{k}:{v['status']}({v.get('violating_observations')}/{v.get('of_runs')})" for k, v in results.items()) + f" {[s for r in results.values() for s in r['signatures']][:2]} ({time.monotonic() - t0:.0f}s)", flush=True)
             shutil.rmtree(root, ignore_errors=True)
     finally:
         shutil.rmtree(base, ignore_errors=True)
